@@ -173,13 +173,27 @@ class RoleManager(RM):
 
         user = self._get_role(name1)
         role = self._get_role(name2)
-        user.remove_role(role)
+        if self.matching_func == None:
+            user.remove_role(role)
+            return
 
+        # a grant made through the matching function may be shared with another link: it goes only with the last one
         for r in self.all_roles.values():
-            if r.name != user.name and self._matching_fn(user.name, r.name, MatchOrder.PATTERN_STR):
-                r.remove_role(role)
+            if r.name == user.name or self._matching_fn(user.name, r.name, MatchOrder.PATTERN_STR):
+                if role in r.roles and not self._linked(r.name, role.name):
+                    r.remove_role(role)
             if r.name != role.name and self._matching_fn(role.name, r.name, MatchOrder.PATTERN_STR):
-                role.remove_role(r)
+                if r in role.roles and not self._linked(role.name, r.name):
+                    role.remove_role(r)
+
+    def _linked(self, name1, name2):
+        """whether a remaining link makes name2 a role of name1, directly or through the matching function"""
+        for link in self.all_links:
+            if link.role == name2 and (link.user == name1 or self._matching_fn(name1, link.user)):
+                return True
+            if link.role == name1 and name1 != name2 and self._matching_fn(name2, link.role):
+                return True
+        return False
 
     def has_link(self, name1, name2, *domain):
         user = self._get_role(name1)
